@@ -982,8 +982,18 @@ fn exec_one(sim: &mut Simulator, stmt: &TestbenchStatement) -> ExecResult {
             ret,
         } => {
             sim.ensure_comb_updated();
-            let min_v = min.eval(&mut sim.mask_cache).payload_u64();
-            let max_v = max.eval(&mut sim.mask_cache).payload_u64();
+            // A signed bound narrower than the element type (e.g. the 32-bit
+            // literal `-5` on an `i64` handle) keeps its value, not its bits.
+            let bound = |v: Value| -> u64 {
+                let (payload, w) = (v.payload_u64(), v.width());
+                if v.signed() && w > 0 && w < 64 {
+                    (((payload << (64 - w)) as i64) >> (64 - w)) as u64
+                } else {
+                    payload
+                }
+            };
+            let min_v = bound(min.eval(&mut sim.mask_cache));
+            let max_v = bound(max.eval(&mut sim.mask_cache));
             let value = crate::random_table::get_range(*handle, min_v, max_v, *width, *signed);
             if let Some((ret, _)) = ret {
                 sim.set_var_by_id(ret, value);
